@@ -81,6 +81,7 @@ class Case:
         c.warm = getattr(self, "warm", False)
         c.residue = getattr(self, "residue", False)
         c.swapdir = getattr(self, "swapdir", False)
+        c.long_old = getattr(self, "long_old", False)
         return c
 
     def cleanup(self):
@@ -96,8 +97,11 @@ class Case:
         base = os.path.join(root, "base")
         os.makedirs(base, mode=0o700)
         self.old = None
-        if self.had:
+        if self.had and getattr(self, "long_old", False) and getattr(Case, "LONG_OLD", None):
+            self.old = Case.LONG_OLD + self.aux
+        elif self.had:
             self.old = scrypt_record(PWS["old"]).encode() + self.aux
+        if self.had:
             with open(os.path.join(base, "%s.%s" % (self.user, self.had)), "wb") as f:
                 f.write(self.old)
             os.chmod(os.path.join(base, "%s.%s" % (self.user, self.had)), 0o600)
@@ -118,7 +122,10 @@ class Case:
                 self.xdev = xd
             else:
                 shutil.rmtree(xd, ignore_errors=True)
-        open(os.path.join(root, "store.yaml"), "w").write(CFG % (base, base64.b64encode(HMAC1).decode()))
+        cfgtext = CFG % (base, base64.b64encode(HMAC1).decode())
+        if getattr(self, "long_old", False):
+            cfgtext = cfgtext.replace("length: 32", "length: 6000")
+        open(os.path.join(root, "store.yaml"), "w").write(cfgtext)
         if getattr(self, "residue", False):              # what a killed earlier operation may leave in the work area (permitted residue)
             td = os.path.join(base, ".tmp")
             os.makedirs(td, mode=0o700, exist_ok=True)
@@ -341,6 +348,20 @@ class Driver:
         os.makedirs(self.work, exist_ok=True)
         self.pwfile = os.path.join(self.work, "pws.json")
         json.dump({k: v.decode("ascii") for k, v in PWS.items()}, open(self.pwfile, "w"))
+        # a real record whose first line is longer than a 4 KiB read buffer (argon2id with a digest of 6000 bytes), for the
+        # cases whose user already has such a record: written once by the library itself
+        ld = os.path.join(self.work, "longrec")
+        os.makedirs(os.path.join(ld, "base"), exist_ok=True)
+        open(os.path.join(ld, "base", "boss.admin"), "w").write(scrypt_record(b"boss-pw"))
+        open(os.path.join(ld, "store.yaml"), "w").write((CFG % (os.path.join(ld, "base"), base64.b64encode(HMAC1).decode())).replace(
+            "default: 1", "default: 2").replace("length: 32", "length: 6000"))
+        open(os.path.join(ld, "pw"), "wb").write(PWS["old"])
+        subprocess.run([self.drv, "-cfg", os.path.join(ld, "store.yaml"), "-op", "add", "-user", "alice", "-pwfile", os.path.join(ld, "pw")],
+                       stdout=subprocess.PIPE, stderr=subprocess.PIPE)
+        try:
+            Case.LONG_OLD = open(os.path.join(ld, "base", "alice.user"), "rb").read()
+        except OSError:
+            Case.LONG_OLD = None
 
     def run(self, case, tag, inject=None):
         root = os.path.join(self.work, tag)
@@ -424,6 +445,10 @@ def standard_cases(thorough=False):
         cs.append(c)
     for c in (Case("update-over-crash-residue", "update", had="user", aux=b"totp: QUJD\n"), Case("add-over-crash-residue", "add", target_admin=True)):
         c.residue = True
+        cs.append(c)
+    for c in (Case("update-long-record", "update", had="user"), Case("update-long-record-aux", "update", had="admin", aux=b"totp: QUJD\nu2f: REVG\n"),
+              Case("setadmin-long-record", "setadmin", had="user", target_admin=True)):
+        c.long_old = True
         cs.append(c)
     for c in (Case("add-after-directory-replaced", "add"), Case("update-after-directory-replaced", "update", had="user", aux=b"x: y\n"),
               Case("setadmin-after-directory-replaced", "setadmin", had="user", target_admin=True)):
